@@ -42,8 +42,9 @@ OUTSIDE = [
     "masks whose kernel footprint leaves the frame (Convolver raises MaskException via blurring_mask_2d_from - property C10; Imaging pads instead)",
     "interior regions larger than 12 pixels other than the listed patterns; kernel axes longer than 7; more than 2 mapping-matrix columns",
     "simulation clause: PSF total fixed to 1 (normalize_psf=False) or 2 (normalize_psf=True) with all entries otherwise free - a free total makes the "
-    "double normalisation (simulator, then Imaging) a rational identity that z3 does not decide in 90 s; expected counts (convolved image + background) "
-    "below 2^-10 - SimulatorImaging draws np.random.poisson even with add_poisson_noise_to_data=False and numpy rejects negative rates (ValueError)",
+    "double normalisation (simulator, then Imaging) a rational identity that z3 does not decide in 90 s; image values and PSF entries outside [-8, 8] and "
+    "background sky below 64*ky*kx + 2^-10: SimulatorImaging draws np.random.poisson even with add_poisson_noise_to_data=False and numpy rejects negative "
+    "rates (ValueError), so the expected counts are kept positive by linear preconditions",
     "Poisson / noise-map stages of the simulator (switched off), Kernel2D.rescaled_with_odd_dimensions_from, convolve_image_no_blurring_interpolation",
     "float64 rounding of the accumulation order (sat verdicts are replayed in float64 with tolerance 1e-7)",
 ]
@@ -344,16 +345,19 @@ def _resolve_term(ctx, t, gamma, leaf_memo, memo=None):
         out = leaf_memo.get(lkey)
         if out is None:
             out = t
-            s = z3.SolverFor("QF_NRA")
-            s.set("timeout", 5000)
-            s.add(*ctx.constraints)
-            s.add(*rel)
-            s.add(z3.Not(g), w != 0)
             import time
-            t0 = time.time()
-            r = str(s.check())
-            ctx.stats.queries += 1
-            ctx.stats.solver_time += time.time() - t0
+            for budget in (5000, 30000):
+                s = z3.SolverFor("QF_NRA")
+                s.set("timeout", budget)
+                s.add(*ctx.constraints)
+                s.add(*rel)
+                s.add(z3.Not(g), w != 0)
+                t0 = time.time()
+                r = str(s.check())
+                ctx.stats.queries += 1
+                ctx.stats.solver_time += time.time() - t0
+                if r != "unknown":
+                    break
             if r == "unsat":
                 out = w
             leaf_memo[lkey] = out
@@ -524,8 +528,11 @@ def case_convolver(ctx, H, W, ky, kx, ncols, masks=None, pattern=None):
             outside = [z3.Not(x) for x in ([B[i, c].t < 0 for i in src])]
             a_out = _resolve_term(ctx, a.t, outside, memo_out)
             ctx.check(key, z3.Or(region, a_out == et))                                    # outside the region: must hold
+            # inside the region: the recorded finding.  The witness is searched in a slice of the region (the pixel's own entry
+            # negative, the other contributing entries zero) - a model search over the whole region is erratic for > 12 sources.
+            witness = z3.And(B[k, c].t < 0, *[B[i, c].t == 0 for i in src if i != k])
             a_in = _resolve_term(ctx, a.t, [], memo_free)
-            ctx.check(key, z3.Or(z3.Not(region), a_in == et), known={FINDING_NEG: region})  # inside: recorded finding
+            ctx.check(key, z3.Or(z3.Not(witness), a_in == et), known={FINDING_NEG: witness})
         else:
             ctx.check(key, _resolve_term(ctx, a.t, [], memo_free) == et)
     hx.validate(ctx, body_convolver, inputs, kw, actual, every=32)
@@ -580,6 +587,7 @@ def case_whole_frame(ctx, H, W, ky, kx, masks=None, pattern=None):
 # ---------------------------------------------------------------------------- case 3: simulate (noise off) -> mask -> fit with the generating image
 
 EXPOSURE = 256.0
+SIM_BOX = 8.0
 
 
 def body_simulate(inp, H, W, ky, kx, normalize):
@@ -634,12 +642,12 @@ def case_simulate(ctx, H, W, ky, kx, normalize, masks=None, pattern=None):
         ctx.assume(tot == 2)                      # the PSF is divided by its sum (twice: simulator and Imaging)
     else:
         ctx.assume(tot == 1)                      # Imaging() always normalises its PSF: hand in a unit-sum PSF
-    # SimulatorImaging draws the Poisson realisation even when it is switched off; numpy rejects negative expected counts
-    every = [(y, x) for y in range(H) for x in range(W)]
-    for t in every:
-        c = ref_conv_at(v, every, K, t)
-        ct = V.to_real_term(c)
-        ctx.assume((ct / 2 if normalize else ct) + bg.t >= V.rval(2.0 ** -10))
+    # SimulatorImaging draws the Poisson realisation even when it is switched off and numpy rejects negative expected counts
+    # (ValueError): keep convolved image + background positive.  Stated through LINEAR constraints (a box for the values and a
+    # background above the worst case) - the bilinear form `conv(v, K)[t] + bg >= 0` for every t costs 14 s per model search.
+    box = z3.And(*[z3.And(e.t >= -SIM_BOX, e.t <= SIM_BOX) for e in list(v.reshape(-1)) + list(K.reshape(-1))])
+    ctx.assume(box)
+    ctx.assume(bg.t >= V.rval(SIM_BOX * SIM_BOX * ky * kx + 2.0 ** -10))
     inputs = {"mask": mask, "v": v, "K": K, "bg": [bg]}
     tol = {"simulated_data": None, "residual_of_generating_image": None}
     hx.run_body(ctx, body_simulate, inputs, {"H": H, "W": W, "ky": ky, "kx": kx, "normalize": normalize}, validate_every=8, tol=tol)
@@ -672,7 +680,7 @@ def cases(tier):
     quick = tier == "quick"
     out = []
     # (a) Convolver on every interior mask (outer ring of half a kernel masked)
-    plan = [((3, 3), (3, 3), 2, 4), ((3, 5), (2, 3), 1, 1), ((5, 3), (3, 2), 1, 1), ((1, 3), (2, 3), 1, 1), ((3, 1), (3, 2), 1, 1), ((1, 1), (2, 2), 1, 0)]
+    plan = [((3, 3), (3, 3), 2, 5), ((3, 5), (2, 3), 1, 1), ((5, 3), (3, 2), 1, 1), ((1, 3), (2, 3), 1, 1), ((3, 1), (3, 2), 1, 1), ((1, 1), (2, 2), 1, 0)]
     if not quick:
         plan = [((3, 3), (3, 4), 1, 7), ((3, 3), (3, 3), 2, 4), ((3, 5), (3, 3), 2, 4), ((5, 3), (3, 3), 2, 4), ((5, 5), (3, 3), 1, 4),
                 ((1, 3), (3, 3), 1, 3), ((3, 1), (3, 3), 1, 3), ((1, 1), (3, 3), 1, 3), ((1, 5), (2, 4), 1, 2), ((5, 1), (4, 2), 1, 2),
